@@ -453,8 +453,11 @@ def run(ctx):
     jobs = []
     for (sc, how), d in zip(scen, dry):
         if d is None or "error" in d:
-            ctx.fail("scenario could not be prepared", {"scenario": sc, "error": (d or {}).get("error")},
-                     found_input=False)
+            # only clean calls of the real code are involved here (stores through a
+            # ReusableHyperOptimizer, then an uninterrupted writer): an exception is a failing input
+            ctx.fail("a clean (uninterrupted) store / reload through the on-disk cache raised",
+                     {"scenario": sc, "error": (d or {}).get("error")},
+                     found_input=bool(d) and "worker failed" not in str(d.get("error")))
             jobs.append((sc, []))
             continue
         events = [tuple(l["ev"]) for l in d["points"][0]["log"] if "ev" in l]
